@@ -16,7 +16,9 @@ All paths of main (config `cmdline`, crate `jsonlogic`):
       the first argument and of the data text, in this order;
   K3  data source: the data text is the second argument unless it is absent
       (defaulted to the constant "-") or equals "-"; exactly then it is read to
-      the end from stdin; the stdin read happens on that edge only;
+      the end from stdin; the stdin read happens on that edge only (stated on the sources of the data text — read
+      through `?`, merges and Option/Result combinators with their closures in case normal form — and on edge cut
+      sets of main; a read that sits in a helper is decided on the view with the helper inlined);
   K4  exit status: every failure edge either returns the residual (`?`, main
       returning Result<(), _>) or ends in a handler that never returns and exits
       with a constant status that is non-zero modulo 256 (the OS keeps 8 bits); no
@@ -34,6 +36,7 @@ from .core import (callee_of, callee_path, strip_refs, strip_payload, edge_domin
 from .engine import Inconclusive
 from . import extract as ex
 from . import panic as PN
+from . import optnorm
 
 FROM_STR = "serde_json::from_str"
 PRINT = "std::io::_print"
@@ -192,197 +195,246 @@ def run(ctx):
     no_exit_after = not any(b is m and bi in reach_from_print and vals and any(v % 256 for v in vals) for (b, bi, vals) in exits)
     ctx.check(no_exit_after, "K1.then-ok", "after printing, main does not exit with a failure status", "main can exit non-zero after printing the result", where=m.where(pbi), fn=m.key)
 
-    # ---------------- K2
-    a = strip_refs(m.trace(pterm["args"][0]))
-    ok = a[0] == "call" and a[1] and a[1]["path"].startswith("std::fmt::Arguments::<'a>::new")
-    ctx.need(ok, "print argument is not a format_args! value: %s" % show_expr(a))
-    tmpl = strip_refs(a[2][0])
-    pieces = decode_fmt(tmpl[1]["bytes"]) if tmpl[0] == "const" and "bytes" in tmpl[1] else None
-    ctx.need(pieces is not None, "format template could not be decoded")
-    ctx.check(pieces == [("arg",), ("lit", "\n")], "K2.template", "printed line is exactly `{}` + newline",
-              "the print template is %r: the output is no longer exactly one line holding only the result" % (pieces,), where=m.where(pbi), fn=m.key, nontrivial=True, sample={"template": pieces})
-    arr = strip_refs(a[2][1])
-    elems = arr[2] if arr[0] == "agg" and arr[1].get("agg") == "Array" else None
-    ctx.need(elems is not None and len(elems) >= 1, "format arguments array not found")
-    e0 = strip_refs(elems[0])
-    disp = e0[0] == "call" and e0[1] and e0[1]["path"].endswith("new_display")
-    ctx.check(len(elems) == 1 and disp, "K2.display", "one argument, formatted with Display", "format arguments: %s" % [show_expr(x) for x in elems], where=m.where(pbi), fn=m.key)
-    if not disp:
-        return
-    x = strip_refs(e0[2][0])
-    via = []
-    if x[0] == "call" and x[1] and x[1]["path"] in ("<serde_json::Value as std::string::ToString>::to_string", "<T as std::string::ToString>::to_string") and "serde_json::Value" in (x[1].get("full") or ""):
-        via.append("Value::to_string")
-        x = strip_refs(x[2][0])
-    src = peel(x)
-    is_apply = src[0] == "call" and src[1] and src[1]["crate"] == "jsonlogic_rs" and src[1]["path"] == "jsonlogic_rs::apply"
-    ctx.check(bool(via or is_apply) and is_apply, "K2.prints-result", "the printed value is the library's serialisation of apply's Ok payload",
-              "the printed text derives from %s — not (only) from the JSON serialisation of apply's result" % show_expr(x), where=m.where(pbi), fn=m.key, nontrivial=True,
-              sample={"chain": via + ["payload of apply(..)?"]})
-    if not is_apply:
-        return
-    apply_bi = src[3]
-    # apply's arguments
-    def parsed_from(e):
-        s = peel(e)
-        if s[0] == "call" and s[1] and s[1]["path"] == FROM_STR and "serde_json::Value" in (s[1].get("full") or ""):
-            return s
-        return None
-
-    r0, d0 = parsed_from(src[2][0]), parsed_from(src[2][1])
-    ctx.check(r0 is not None and d0 is not None, "K2.parsed-by-from_str", "rule and data are parsed with serde_json::from_str::<Value> (whole text, trailing characters rejected)",
-              "apply's arguments are %s and %s" % (show_expr(peel(src[2][0])), show_expr(peel(src[2][1]))), where=m.where(apply_bi), fn=m.key, nontrivial=True)
-    if r0 is None or d0 is None:
-        return
-    rule_text = peel(r0[2][0])
-    is_logic = rule_text[0] == "call" and rule_text[1] and rule_text[1]["path"].endswith("::value_of")
-    argname = None
-    if is_logic:
-        n = strip_refs(rule_text[2][1])
-        argname = const_value(n[1]) if n[0] == "const" else None
-    ctx.check(is_logic and argname is not None, "K2.rule-source", "the rule text is a command-line argument (%r)" % argname, "rule text derives from %s" % show_expr(rule_text), where=m.where(apply_bi), fn=m.key)
-
-    # ---------------- K3 data source
-    # Stated on sources and cut sets of the control-flow graph, not on the shape of the selection:
-    #   * every definition the data text can come from is either the data argument itself (made into a String) or a
-    #     buffer filled by reading stdin to the end;
-    #   * every path to the stdin read takes an edge that says "the data argument is absent" or "… equals \"-\"";
-    #   * every path to the use of the argument takes the edge that says "… does not equal \"-\"";
-    #   * a default substituted for an absent argument is the constant "-" (so that absence ends on the stdin side).
-    dt = strip_refs(d0[2][0])
-    while dt[0] == "call" and dt[1] and dt[1]["path"] in ("<std::string::String as std::ops::Deref>::deref", "std::string::String::as_str"):
-        dt = strip_refs(dt[2][0])
-
-    def arg_source(e, depth=0):
-        """(argument name, default constant or None) when e is the command-line argument's text."""
-        e = strip_refs(e)
-        if depth > 8:
+    def k2_k3():
+        # ---------------- K2
+        a = strip_refs(m.trace(pterm["args"][0]))
+        ok = a[0] == "call" and a[1] and a[1]["path"].startswith("std::fmt::Arguments::<'a>::new")
+        ctx.need(ok, "print argument is not a format_args! value: %s" % show_expr(a))
+        tmpl = strip_refs(a[2][0])
+        pieces = decode_fmt(tmpl[1]["bytes"]) if tmpl[0] == "const" and "bytes" in tmpl[1] else None
+        ctx.need(pieces is not None, "format template could not be decoded")
+        ctx.check(pieces == [("arg",), ("lit", "\n")], "K2.template", "printed line is exactly `{}` + newline",
+                  "the print template is %r: the output is no longer exactly one line holding only the result" % (pieces,), where=m.where(pbi), fn=m.key, nontrivial=True, sample={"template": pieces})
+        arr = strip_refs(a[2][1])
+        elems = arr[2] if arr[0] == "agg" and arr[1].get("agg") == "Array" else None
+        ctx.need(elems is not None and len(elems) >= 1, "format arguments array not found")
+        e0 = strip_refs(elems[0])
+        disp = e0[0] == "call" and e0[1] and e0[1]["path"].endswith("new_display")
+        ctx.check(len(elems) == 1 and disp, "K2.display", "one argument, formatted with Display", "format arguments: %s" % [show_expr(x) for x in elems], where=m.where(pbi), fn=m.key)
+        if not disp:
+            return
+        x = strip_refs(e0[2][0])
+        via = []
+        if x[0] == "call" and x[1] and x[1]["path"] in ("<serde_json::Value as std::string::ToString>::to_string", "<T as std::string::ToString>::to_string") and "serde_json::Value" in (x[1].get("full") or ""):
+            via.append("Value::to_string")
+            x = strip_refs(x[2][0])
+        src = peel(x)
+        is_apply = src[0] == "call" and src[1] and src[1]["crate"] == "jsonlogic_rs" and src[1]["path"] == "jsonlogic_rs::apply"
+        ctx.check(bool(via or is_apply) and is_apply, "K2.prints-result", "the printed value is the library's serialisation of apply's Ok payload",
+                  "the printed text derives from %s — not (only) from the JSON serialisation of apply's result" % show_expr(x), where=m.where(pbi), fn=m.key, nontrivial=True,
+                  sample={"chain": via + ["payload of apply(..)?"]})
+        if not is_apply:
+            return
+        apply_bi = src[3]
+        # apply's arguments
+        def parsed_from(e):
+            s = peel(e)
+            if s[0] == "call" and s[1] and s[1]["path"] == FROM_STR and "serde_json::Value" in (s[1].get("full") or ""):
+                return s
             return None
-        if e[0] == "field" and e[1][0] == "downcast" and e[1][2] == "Some":
-            return arg_source(e[1][1], depth + 1)
-        if e[0] == "agg" and e[1].get("variant") == "Some" and e[2]:
-            return arg_source(e[2][0], depth + 1)
-        if e[0] == "call" and e[1]:
-            pth = e[1]["path"]
-            if pth.endswith("::value_of"):
-                n = strip_refs(e[2][1])
-                return (const_value(n[1]), None) if n[0] == "const" else None
-            if pth == "std::option::Option::<T>::unwrap_or":
-                inner = arg_source(e[2][0], depth + 1)
-                dv = strip_refs(e[2][1])
-                if inner and dv[0] == "const":
-                    return (inner[0], const_value(dv[1]))
-                return (inner[0], "<computed>") if inner else None
-            if pth in ("std::option::Option::<T>::unwrap_or_default", "std::option::Option::<T>::unwrap_or_else"):
-                inner = arg_source(e[2][0], depth + 1)
-                return (inner[0], "<computed>") if inner else None
-            if pth in ("std::option::Option::<T>::unwrap", "std::option::Option::<T>::expect", "std::option::Option::<&T>::copied", "std::option::Option::<&T>::cloned"):
+
+        r0, d0 = parsed_from(src[2][0]), parsed_from(src[2][1])
+        ctx.check(r0 is not None and d0 is not None, "K2.parsed-by-from_str", "rule and data are parsed with serde_json::from_str::<Value> (whole text, trailing characters rejected)",
+                  "apply's arguments are %s and %s" % (show_expr(peel(src[2][0])), show_expr(peel(src[2][1]))), where=m.where(apply_bi), fn=m.key, nontrivial=True)
+        if r0 is None or d0 is None:
+            return
+        rule_text = peel(r0[2][0])
+        is_logic = rule_text[0] == "call" and rule_text[1] and rule_text[1]["path"].endswith("::value_of")
+        argname = None
+        if is_logic:
+            n = strip_refs(rule_text[2][1])
+            argname = const_value(n[1]) if n[0] == "const" else None
+        ctx.check(is_logic and argname is not None, "K2.rule-source", "the rule text is a command-line argument (%r)" % argname, "rule text derives from %s" % show_expr(rule_text), where=m.where(apply_bi), fn=m.key)
+
+        # ---------------- K3 data source
+        # Stated on sources and cut sets of the control-flow graph, not on the shape of the selection:
+        #   * every definition the data text can come from is either the data argument itself (made into a String) or a
+        #     buffer filled by reading stdin to the end;
+        #   * every path to the stdin read takes an edge that says "the data argument is absent" or "… equals \"-\"";
+        #   * every path to the use of the argument takes the edge that says "… does not equal \"-\"";
+        #   * a default substituted for an absent argument is the constant "-" (so that absence ends on the stdin side).
+        dt = strip_refs(d0[2][0])
+        while dt[0] == "call" and dt[1] and dt[1]["path"] in ("<std::string::String as std::ops::Deref>::deref", "std::string::String::as_str"):
+            dt = strip_refs(dt[2][0])
+
+        def arg_source(e, depth=0):
+            """(argument name, default constant or None) when e is the command-line argument's text."""
+            e = strip_refs(e)
+            if depth > 8:
+                return None
+            if e[0] == "field" and e[1][0] == "downcast" and e[1][2] == "Some":
+                return arg_source(e[1][1], depth + 1)
+            if e[0] == "agg" and e[1].get("variant") == "Some" and e[2]:
                 return arg_source(e[2][0], depth + 1)
-        return None
+            if e[0] == "call" and e[1]:
+                pth = e[1]["path"]
+                if pth.endswith("::value_of"):
+                    n = strip_refs(e[2][1])
+                    return (const_value(n[1]), None) if n[0] == "const" else None
+                if pth == "std::option::Option::<T>::unwrap_or":
+                    inner = arg_source(e[2][0], depth + 1)
+                    dv = strip_refs(e[2][1])
+                    if inner and dv[0] == "const":
+                        return (inner[0], const_value(dv[1]))
+                    return (inner[0], "<computed>") if inner else None
+                if pth in ("std::option::Option::<T>::unwrap_or_default", "std::option::Option::<T>::unwrap_or_else"):
+                    inner = arg_source(e[2][0], depth + 1)
+                    return (inner[0], "<computed>") if inner else None
+                if pth in ("std::option::Option::<T>::unwrap", "std::option::Option::<T>::expect", "std::option::Option::<&T>::copied", "std::option::Option::<&T>::cloned"):
+                    return arg_source(e[2][0], depth + 1)
+            return None
 
-    OWNED = re.compile(r"::to_string$|::to_owned$|From<&str>|::into$|String::from$")
+        OWNED = re.compile(r"::to_string$|::to_owned$|From<&str>|::into$|String::from$")
 
-    def leaves(e, depth=0, out=None):
-        out = [] if out is None else out
-        e = peel(e)
-        if depth < 8 and e[0] in ("phi", "partial"):
-            for x in e[2]:
-                leaves(x, depth + 1, out)
-        else:
-            out.append(e)
-        return out
-    lvs = leaves(dt)
-    stdin_reads = [(bi, t) for bi, t in m.calls() if re.search(r"as std::io::Read>::read_to_string$|^std::io::Read::read_to_string$|^std::io::read_to_string$", callee_path(t) or "")]
-    other_reads = [(bi, callee_path(t)) for bi, t in m.calls() if re.search(r"std::io::(Read|BufRead)>?::(read|read_line|read_exact|read_to_end|lines|bytes)\b", callee_path(t) or "") or "from_reader" in (callee_path(t) or "")]
-    ctx.check(len(stdin_reads) == 1 and not other_reads, "K3.read-all", "stdin is read to the end, once", "stdin reads: %s; other readers: %s" % ([m.where(bi) for bi, _ in stdin_reads], other_reads), where=m.where(), fn=m.key, nontrivial=True)
-    if len(stdin_reads) != 1:
-        return
-    rbi, rt = stdin_reads[0]
-    recv = strip_refs(m.trace(rt["args"][0]))
-    from_stdin = expr_mentions(recv, lambda x: x[0] == "call" and x[1] and x[1]["path"] == "std::io::stdin")
-    ctx.check(from_stdin, "K3.reads-stdin", "the reader is std::io::stdin()", "read_to_string is applied to %s" % show_expr(recv), where=m.where(rbi), fn=m.key)
-    buf_call = None      # block of the String::new() whose result the read fills (method form)
-    if len(rt["args"]) >= 2:
-        bx = strip_refs(m.trace(rt["args"][1]))
-        for x in ([bx] if bx[0] not in ("phi", "partial") else bx[2]):
-            x = strip_refs(x)
-            if x[0] == "call" and x[1] and re.search(r"String::(new|with_capacity)$", x[1]["path"]):
-                buf_call = x[3]
-    arg_leaves, stdin_leaves, other = [], [], []
-    for lf in lvs:
-        if lf[0] == "call" and lf[1] and OWNED.search(lf[1]["path"]) and lf[2] and arg_source(lf[2][0]):
-            arg_leaves.append((lf, arg_source(lf[2][0])))
-        elif lf[0] == "call" and lf[3] == rbi and len(rt["args"]) < 2:
-            stdin_leaves.append(lf)
-        elif lf[0] == "call" and lf[1] and re.search(r"String::(new|with_capacity)$", lf[1]["path"]) and lf[3] == buf_call:
-            stdin_leaves.append(lf)
-        elif _residual(lf):
-            continue
-        else:
-            other.append(lf)
-    ctx.check(not other and arg_leaves and stdin_leaves, "K3.data-source", "the data text is the data argument itself or what was read from stdin — nothing else",
-              "the data text can be %s (argument forms: %d, stdin forms: %d)" % ([show_expr(x)[:100] for x in other], len(arg_leaves), len(stdin_leaves)), where=m.where(apply_bi), fn=m.key, nontrivial=True,
-              sample={"argument_forms": len(arg_leaves), "stdin_forms": len(stdin_leaves)})
-    if other or not arg_leaves or not stdin_leaves:
-        return
-    dnames = {a[1][0] for a in arg_leaves}
-    ctx.check(len(dnames) == 1 and argname not in dnames, "K3.data-argument", "the data argument is one command-line argument, not the rule's (%s)" % sorted(dnames), "data argument names: %s (rule: %r)" % (sorted(dnames), argname), where=m.where(), fn=m.key)
-    for lf, (nm, dflt) in arg_leaves:
-        ctx.check(dflt in (None, "-"), "K3.default-dash", "an absent data argument is treated as \"-\" (stdin)", "an absent data argument is replaced by %r instead of reading stdin" % (dflt,), where=m.where(lf[3]), fn=m.key, nontrivial=True)
-    # decision edges about the data argument
-    stdin_edges, arg_edges = set(), set()
-    for sb in m.reachable():
-        tt = m.blocks[sb]["term"]
-        if tt["k"] != "SwitchInt":
-            continue
-        e0_ = m.trace(tt["discr"])
-        e = strip_refs(e0_)
-        neg = False
-        while e[0] == "unop" and e[1] == "Not":
-            neg, e = not neg, strip_refs(e[2])
-        if e[0] == "call" and e[1] and re.search(r"PartialEq.*::(eq|ne)$", e[1]["path"]):
-            l, r_ = strip_refs(e[2][0]), strip_refs(e[2][1])
-            for pp, q in ((l, r_), (r_, l)):
-                src_ = arg_source(pp)
-                if q[0] == "const" and const_value(q[1]) == "-" and src_ and src_[0] in dnames:
-                    is_eq = e[1]["path"].endswith("::eq") != neg
-                    stdin_edges.add((sb, bool_edge(m, sb, is_eq)))
-                    arg_edges.add((sb, bool_edge(m, sb, not is_eq)))
-        elif e0_[0] == "discr":
-            x = strip_refs(e0_[1])
-            src_ = arg_source(x)
-            if src_ and src_[0] in dnames and src_[1] is None and x[0] == "call" and x[1]["path"].endswith("::value_of"):
-                r = switch_edges_for_variant(m, sb, "None")
-                if r:
-                    stdin_edges.add((sb, r[0]))
-        else:
-            for (sw_, t_some, t_none) in []:
-                pass
-    from .core import option_guards
-    for (sw_, t_some, t_none) in option_guards(m, lambda x: x[0] == "call" and x[1] is not None and x[1]["path"].endswith("::value_of") and (arg_source(x) or (None,))[0] in dnames):
-        stdin_edges.add((sw_, t_none))
-    ctx.check(bool(stdin_edges), "K3.selector", "main decides on the data argument being absent or \"-\"", "no test of the data argument against the constant \"-\" (or for absence) found", where=m.where(), fn=m.key, nontrivial=True)
-    if not stdin_edges:
-        return
+        def in_main(e):
+            """The call expression e is a call site of main itself (not one inside a closure read through its summary)."""
+            if not (e[0] == "call" and e[1] and isinstance(e[3], int) and 0 <= e[3] < len(m.blocks)):
+                return False
+            t_ = m.blocks[e[3]]["term"]
+            return t_["k"] in ("Call", "TailCall") and callee_path(t_) == e[1]["path"]
 
-    def reachable_without(edges, target):
-        seen, st = set(), [0]
-        while st:
-            x = st.pop()
-            if x in seen:
+        def leaves(e, depth=0, out=None, site=None):
+            """[(value, block of main at which it is produced)] — the values the text can be, read through `?`,
+            Ok(..)/Some(..), merges of paths and — in case normal form (rules/optnorm.py) — the Option/Result combinators
+            with the closures handed to them (`read(..).map(|_| buf)`, `.and_then(..)`, `.or_else(..)`); the Err/None
+            cases of a combinator are not texts (they leave through `?`).  A value produced inside such a closure is
+            produced where the combinator is called."""
+            out = [] if out is None else out
+            e = peel(e)
+            if depth < 8 and e[0] in ("phi", "partial"):
+                for x in e[2]:
+                    leaves(x, depth + 1, out, site)
+            elif depth < 8 and e[0] == "call" and e[1] and optnorm.M.match(e[1]["path"]):
+                cs = optnorm.cases_expr(facts, e)
+                here = e[3] if in_main(e) else site
+                if cs is None or (len(cs) == 1 and cs[0][0] == () and strip_refs(cs[0][1]) == e):
+                    out.append((("unread", e), here))
+                else:
+                    for _conds, v in cs:
+                        v = strip_refs(v)
+                        if v[0] == "agg" and v[1].get("variant") in ("Err", "None"):
+                            continue
+                        if v[0] in ("payload", "payload-err", "panic", "error", "default", "unit"):
+                            # the payload of a source that is no combinator: the source itself is the leaf
+                            if v[0] == "payload" and len(v) > 2:
+                                leaves(v[2], depth + 1, out, here)
+                            else:
+                                out.append((("unread", v), here))
+                            continue
+                        leaves(v, depth + 1, out, here)
+            else:
+                out.append((e, e[3] if in_main(e) else site))
+            return out
+        lvs = leaves(dt)
+        # binary-wide: one read-to-end site, no other reader — wherever it sits; the clauses below are about main's paths,
+        # so a read that sits in a helper is read on the view with that helper inlined (not a violation: not read here)
+        RD = r"as std::io::Read>::read_to_string$|^std::io::Read::read_to_string$|^std::io::read_to_string$"
+        all_reads = [(b, bi, t) for b in bodies for bi, t in b.calls() if re.search(RD, callee_path(t) or "")]
+        other_reads = [(b.where(bi), callee_path(t)) for b in bodies for bi, t in b.calls() if re.search(r"std::io::(Read|BufRead)>?::(read|read_line|read_exact|read_to_end|lines|bytes)\b", callee_path(t) or "") or "from_reader" in (callee_path(t) or "")]
+        ctx.check(len(all_reads) == 1 and not other_reads, "K3.read-all", "stdin is read to the end, once", "stdin reads: %s; other readers: %s" % ([b.where(bi) for b, bi, _ in all_reads], other_reads), where=m.where(), fn=m.key, nontrivial=True)
+        if len(all_reads) != 1:
+            return
+        if all_reads[0][0] is not m:
+            # every clause about main's paths to the read is unread here (and decided — either way — on the view)
+            for cl in ("K3.data-source", "K3.reads-stdin", "K3.data-argument", "K3.default-dash", "K3.selector", "K3.stdin-only-on-dash", "K3.argument-verbatim"):
+                ctx.unread(cl, "the data text", "stdin is read in %s, not in main: the selection of the data source is read on the view with that function inlined" % all_reads[0][0].key, where=all_reads[0][0].where(all_reads[0][1]), fn=m.key)
+            return
+        stdin_reads = [(bi, t) for (b, bi, t) in all_reads]
+        rbi, rt = stdin_reads[0]
+        recv = strip_refs(m.trace(rt["args"][0]))
+        from_stdin = expr_mentions(recv, lambda x: x[0] == "call" and x[1] and x[1]["path"] == "std::io::stdin")
+        ctx.check(from_stdin, "K3.reads-stdin", "the reader is std::io::stdin()", "read_to_string is applied to %s" % show_expr(recv), where=m.where(rbi), fn=m.key)
+        buf_call = None      # block of the String::new() whose result the read fills (method form)
+        if len(rt["args"]) >= 2:
+            bx = strip_refs(m.trace(rt["args"][1]))
+            for x in ([bx] if bx[0] not in ("phi", "partial") else bx[2]):
+                x = strip_refs(x)
+                if x[0] == "call" and x[1] and re.search(r"String::(new|with_capacity)$", x[1]["path"]):
+                    buf_call = x[3]
+        arg_leaves, stdin_leaves, other = [], [], []
+        unread = [lf for lf, pos in lvs if lf[0] == "unread"]
+        if unread:
+            ctx.unread("K3.data-source", "the data text", "the data text is produced by a form the source reader cannot read: %s" % show_expr(unread[0][1])[:160], where=m.where(apply_bi), fn=m.key)
+            return
+        for lf, pos in lvs:
+            if lf[0] == "call" and lf[1] and OWNED.search(lf[1]["path"]) and lf[2] and arg_source(lf[2][0]):
+                if pos is None:
+                    ctx.unread("K3.argument-verbatim", "the data text", "where the data argument becomes the data text could not be located in main", where=m.where(apply_bi), fn=m.key)
+                    return
+                arg_leaves.append((lf, arg_source(lf[2][0]), pos))
+            elif lf[0] == "call" and in_main(lf) and lf[3] == rbi and len(rt["args"]) < 2:
+                stdin_leaves.append(lf)
+            elif lf[0] == "call" and lf[1] and re.search(r"String::(new|with_capacity)$", lf[1]["path"]) and in_main(lf) and lf[3] == buf_call:
+                stdin_leaves.append(lf)
+            elif _residual(lf):
                 continue
-            seen.add(x)
-            for y in m.succs(x):
-                if (x, y) in edges:
+            else:
+                other.append(lf)
+        ctx.check(not other and arg_leaves and stdin_leaves, "K3.data-source", "the data text is the data argument itself or what was read from stdin — nothing else",
+                  "the data text can be %s (argument forms: %d, stdin forms: %d)" % ([show_expr(x)[:100] for x in other], len(arg_leaves), len(stdin_leaves)), where=m.where(apply_bi), fn=m.key, nontrivial=True,
+                  sample={"argument_forms": len(arg_leaves), "stdin_forms": len(stdin_leaves)})
+        if other or not arg_leaves or not stdin_leaves:
+            return
+        dnames = {a[1][0] for a in arg_leaves}
+        ctx.check(len(dnames) == 1 and argname not in dnames, "K3.data-argument", "the data argument is one command-line argument, not the rule's (%s)" % sorted(dnames), "data argument names: %s (rule: %r)" % (sorted(dnames), argname), where=m.where(), fn=m.key)
+        for lf, (nm, dflt), pos in arg_leaves:
+            ctx.check(dflt in (None, "-"), "K3.default-dash", "an absent data argument is treated as \"-\" (stdin)", "an absent data argument is replaced by %r instead of reading stdin" % (dflt,), where=m.where(pos), fn=m.key, nontrivial=True)
+        # decision edges about the data argument
+        stdin_edges, arg_edges = set(), set()
+        for sb in m.reachable():
+            tt = m.blocks[sb]["term"]
+            if tt["k"] != "SwitchInt":
+                continue
+            e0_ = m.trace(tt["discr"])
+            e = strip_refs(e0_)
+            neg = False
+            while e[0] == "unop" and e[1] == "Not":
+                neg, e = not neg, strip_refs(e[2])
+            if e[0] == "call" and e[1] and re.search(r"PartialEq.*::(eq|ne)$", e[1]["path"]):
+                l, r_ = strip_refs(e[2][0]), strip_refs(e[2][1])
+                for pp, q in ((l, r_), (r_, l)):
+                    src_ = arg_source(pp)
+                    if q[0] == "const" and const_value(q[1]) == "-" and src_ and src_[0] in dnames:
+                        is_eq = e[1]["path"].endswith("::eq") != neg
+                        stdin_edges.add((sb, bool_edge(m, sb, is_eq)))
+                        arg_edges.add((sb, bool_edge(m, sb, not is_eq)))
+            elif e0_[0] == "discr":
+                x = strip_refs(e0_[1])
+                src_ = arg_source(x)
+                if src_ and src_[0] in dnames and src_[1] is None and x[0] == "call" and x[1]["path"].endswith("::value_of"):
+                    r = switch_edges_for_variant(m, sb, "None")
+                    if r:
+                        stdin_edges.add((sb, r[0]))
+            else:
+                for (sw_, t_some, t_none) in []:
+                    pass
+        from .core import option_guards
+        for (sw_, t_some, t_none) in option_guards(m, lambda x: x[0] == "call" and x[1] is not None and x[1]["path"].endswith("::value_of") and (arg_source(x) or (None,))[0] in dnames):
+            stdin_edges.add((sw_, t_none))
+        ctx.check(bool(stdin_edges), "K3.selector", "main decides on the data argument being absent or \"-\"", "no test of the data argument against the constant \"-\" (or for absence) found", where=m.where(), fn=m.key, nontrivial=True)
+        if not stdin_edges:
+            return
+
+        def reachable_without(edges, target):
+            seen, st = set(), [0]
+            while st:
+                x = st.pop()
+                if x in seen:
                     continue
-                st.append(y)
-        return target in seen
-    ctx.check(not reachable_without(stdin_edges, rbi), "K3.stdin-only-on-dash", "stdin is read only when the data argument is \"-\" or absent",
-              "stdin can be read on a path that never established that the data argument is absent or \"-\"", where=m.where(rbi), fn=m.key, nontrivial=True)
-    for lf, _src in arg_leaves:
-        ctx.check(bool(arg_edges) and not reachable_without(arg_edges, lf[3]), "K3.argument-verbatim", "the data argument is used as the data text only when it is not \"-\"",
-                  "the data argument can become the data text without having been compared with \"-\"", where=m.where(lf[3]), fn=m.key, nontrivial=True)
-    ctx.ok("K3.stdin-into-data", "the stdin text becomes the data text", nontrivial=True)
+                seen.add(x)
+                for y in m.succs(x):
+                    if (x, y) in edges:
+                        continue
+                    st.append(y)
+            return target in seen
+        ctx.check(not reachable_without(stdin_edges, rbi), "K3.stdin-only-on-dash", "stdin is read only when the data argument is \"-\" or absent",
+                  "stdin can be read on a path that never established that the data argument is absent or \"-\"", where=m.where(rbi), fn=m.key, nontrivial=True)
+        for lf, _src, pos in arg_leaves:
+            ctx.check(bool(arg_edges) and not reachable_without(arg_edges, pos), "K3.argument-verbatim", "the data argument is used as the data text only when it is not \"-\"",
+                      "the data argument can become the data text without having been compared with \"-\"", where=m.where(pos), fn=m.key, nontrivial=True)
+        ctx.ok("K3.stdin-into-data", "the stdin text becomes the data text", nontrivial=True)
+
+    k2_k3()
 
     # ---------------- K1 (library side): what else can reach stdout before the result line
     lf = ctx.facts("cmdline", "jsonlogic_rs")
